@@ -18,11 +18,11 @@ FUNCTIONS = ["gcmpy.message_passing.message_passing.MessagePassing.theoretical",
              "gcmpy.message_passing.equations.automated_equation.AutomatedEquation.automated_equation"]
 STUBS = []
 BOUNDS = {
-    "quick": "pool of 5 cover-labelled networks (two triangles sharing a vertex; triangle+pendant edge+diamond; ring of three triangles; K4 with a tail; "
-             "4-cycle+edge+triangle); step identity for every (vertex, motif) pair with all messages symbolic; whole run with symbolic phi: 25 iterations "
+    "quick": "pool of 6 cover-labelled networks (two triangles sharing a vertex; triangle+pendant edge+diamond; ring of three triangles; K4 with a tail; "
+             "4-cycle+edge+triangle; chorded 5-cycle with two tails); step identity for every (vertex, motif) pair with all messages symbolic; whole run with symbolic phi: 25 iterations "
              "(the default) on the tree-like networks, 2 on the ring; query histories phi_a, phi_b, phi_a; range and per-message monotonicity of every step; "
              "phi-monotonicity of the step for 2- and 3-vertex motifs",
-    "thorough": "ring with 3 iterations; two more networks (K5 hub, chorded 5-cycle); phi-monotonicity attempted for 4-vertex motifs (reported undecided on timeout)",
+    "thorough": "ring with 3 iterations; one more network (K5 hub); phi-monotonicity attempted for 4-vertex motifs (reported undecided on timeout)",
 }
 OUTSIDE = "convergence of the iteration to the fixed point and 'away from slow-convergence points' (analysis, not encodable: the claim is reduced to the step " \
           "identity + the sweep structure); phi-monotonicity for motifs of >= 4 vertices rests on the proved identity with the bond-percolation expectation " \
@@ -60,7 +60,7 @@ LOOPY = {"triangle-ring"}
 
 def configs(tier):
     q = tier == "quick"
-    names = ["two-triangles", "tri-edge-diamond", "triangle-ring", "k4-tail", "c4-edge-tri"] + ([] if q else ["k5-hub", "c5chord"])
+    names = ["two-triangles", "tri-edge-diamond", "triangle-ring", "k4-tail", "c4-edge-tri", "c5chord"] + ([] if q else ["k5-hub"])
     cfgs = []
     for n in names:
         cfgs.append({"name": f"step-{n}", "kind": "step", "net": n, "tier": tier})
